@@ -191,10 +191,17 @@ def check(index, ctx):
                 continue
             ops = sops(r)
             cd = [e for e in ops if e["sop"] == "cdist"]
+            if len(cd) == 0:
+                ctx.undecided("K", "Krum: pairwise distances", "no value recognised as the matrix of pairwise distances between the rows (torch.cdist(matrix, matrix) or F.pairwise_distance of the "
+                              "broadcast rows)", cls.loc())
+                continue
             if len(cd) != 1:
                 ctx.violated("K", "Krum: pairwise distances", f"expected one cdist(matrix, matrix), found {len(cd)}", cls.loc())
                 continue
             cd = cd[0]
+            ctx.require(not cd.get("eps"), "K", "Krum: distances are the exact norms of the row differences", "no eps inside the norm",
+                        f"the distances are ||x - y + eps|| with eps={cd.get('eps')} added to every coordinate (F.pairwise_distance default): the distance of a row to itself is "
+                        "eps·sqrt(n) instead of 0 and grows with the number of columns, so which rows are nearest — and which are selected — changes", cd["loc"])
             ctx.require(cd["both_raw"] and cd["p"] == "2", "K", "Krum: distances are Euclidean distances between rows of the matrix",
                         "cdist(matrix, matrix), p=2", f"cdist arguments/p: both_raw={cd['both_raw']}, p={cd['p']}", cd["loc"])
             ctx.require(cd.get("compute_mode") == "donot_use_mm_for_euclid_dist", "K", "Krum: distances computed from exact differences",
@@ -215,6 +222,16 @@ def check(index, ctx):
             # diagonal of the (square, same rows on both axes) distance matrix before selecting
             fd = [e for e in ops if e["sop"] == "fill_diagonal" and cd["id"] in e["in_origin"] and e["id"] in t1["in_origin"]
                   and e.get("value_text", "").replace(" ", "") in ("float('inf')", "math.inf", "torch.inf", "np.inf", "numpy.inf", "inf")]
+            mf = [e for e in ops if e["sop"] == "masked_fill" and cd["id"] in e["in_origin"] and e["id"] in t1["in_origin"]]
+            by_value = [e for e in mf if cd["id"] in e.get("mask_origin", [])]
+            if by_value:
+                ctx.violated("K", "Krum: the row itself is excluded by position, not by value",
+                             f"`{by_value[0]['text'][:80]}` masks the distances selected by a test on their VALUE: a row at distance 0 from another row (a duplicate) is dropped from that row's "
+                             "neighbourhood as if it were the row itself, so scores — and the selected rows — differ whenever rows coincide", by_value[0]["loc"])
+                continue
+            if mf:
+                ctx.undecided("K", "Krum: neighbourhood", f"the distances pass through `{mf[0]['text'][:60]}` whose mask is not derived from them; whether it is the diagonal is not decided", mf[0]["loc"])
+                continue
             want_start = Poly.const(0) if fd else ONE
             good = not problems and start == want_start and (stop - start) == m - f - Poly.const(2)
             ctx.require(good, "K", "Krum: neighbourhood = the m - n_byzantine - 2 nearest other rows",
